@@ -313,7 +313,7 @@ func Open(dir string, spec Spec, f *seams.Faults, name string) (*World, error) {
 
 var (
 	tinkMu    sync.Mutex
-	tinkCache = map[string]*lateBound{}
+	tinkPool  = map[string][]*lateBound{}
 )
 
 // lateBound is a part store whose target is set per run; it lets one Tink
@@ -348,33 +348,41 @@ func (l *lateBound) Capabilities() partstore.Capabilities { return partstore.Cap
 
 var pqSeed = []byte("0123456789abcdef0123456789abcdef0123456789abcdef0123456789abcdef")
 
-// tinkOver returns a (cached per slot) Tink middleware bound to inner.
-func tinkOver(slot string, pq bool, inner partstore.PartStore) (partstore.PartStore, error) {
+// tinkOver returns a Tink middleware bound to inner, taken from a per-process
+// pool (construction runs scrypt); release puts it back when the world stops.
+func tinkOver(pq bool, inner partstore.PartStore) (partstore.PartStore, func(), error) {
 	tinkMu.Lock()
 	defer tinkMu.Unlock()
-	key := fmt.Sprintf("%s/%v", slot, pq)
-	lb := tinkCache[key]
-	if lb == nil {
+	key := fmt.Sprintf("%v", pq)
+	var lb *lateBound
+	if free := tinkPool[key]; len(free) > 0 {
+		lb = free[len(free)-1]
+		tinkPool[key] = free[:len(free)-1]
+	} else {
 		lb = &lateBound{}
 		var dk *mlkem.DecapsulationKey1024
 		if pq {
 			var err error
 			dk, err = mlkem.NewDecapsulationKey1024(pqSeed)
 			if err != nil {
-				return nil, err
+				return nil, nil, err
 			}
 		}
 		outer, err := tink.NewWithLocalKMS("verif-password", lb, dk)
 		if err != nil {
-			return nil, err
+			return nil, nil, err
 		}
 		lb.outer = outer
-		tinkCache[key] = lb
 	}
 	lb.mu.Lock()
 	lb.target = inner
 	lb.mu.Unlock()
-	return lb.outer, nil
+	release := func() {
+		tinkMu.Lock()
+		tinkPool[key] = append(tinkPool[key], lb)
+		tinkMu.Unlock()
+	}
+	return lb.outer, release, nil
 }
 
 func (w *World) seam(ps partstore.PartStore, name string) *seams.PS {
@@ -451,7 +459,11 @@ func (w *World) buildStack(name string, spec StackSpec) (partstore.PartStore, er
 			}
 			cur, err = compression.NewWithConfig(cur, compression.Config{SampleSize: l.SampleSize, Algorithm: alg, MaxCompressionRatio: l.MaxRatio})
 		case "tink", "tinkpq":
-			cur, err = tinkOver(fmt.Sprintf("%s/%s/%d", w.Name, name, i), l.Kind == "tinkpq", cur)
+			var release func()
+			cur, release, err = tinkOver(l.Kind == "tinkpq", cur)
+			if err == nil {
+				w.closers = append(w.closers, release)
+			}
 		case "cache":
 			var c cachepkg.Cache
 			c, err = w.buildCache(name, l)
@@ -540,6 +552,10 @@ func (w *World) Stop() error {
 	if err := w.DB.Close(); err != nil && first == nil {
 		first = err
 	}
+	for _, c := range w.closers {
+		c()
+	}
+	w.closers = nil
 	return first
 }
 
